@@ -52,3 +52,23 @@ def run_merge(ldoc, rdoc, cfgname, style="block", plain=False, mergeat=None, rul
         where = next((f for f in reversed(tb) if "/yamlpath/" in f.filename), tb[-1])
         return "crash", "%s: %s @ %s:%d %s" % (type(ex).__name__, ex, where.filename.split("/yamlpath/")[-1], where.lineno, where.name), mg
     return "ok", absdoc.abstract(mg.data), mg
+
+
+def batch_expectations(ctx, recs, name="rnd"):
+    """C->S: TLC (Batch_Merge) evaluates MergeDocs for the records [{id, l, r, h, a, o, s, am}]; returns {id: [ok, info, out]}."""
+    import json
+    import os
+    from harness import core
+    exp = {}
+    for part in [recs[i:i + 600] for i in range(0, len(recs), 600)]:
+        rin, rout = ctx.path("%s_%d.in.json" % (name, part[0]["id"])), ctx.path("%s_%d.out.json" % (name, part[0]["id"]))
+        with open(rin, "w") as fh:
+            json.dump(part, fh)
+        core.run_tlc(ctx, "Batch_Merge", "Batch_Merge.cfg", env={"RECORDS_IN": rin, "VERDICTS_OUT": rout}, workers=1,
+                     name="%s_%d" % (name, part[0]["id"]), timeout=3600)
+        with open(rout) as fh:
+            for o in json.load(fh):
+                exp[o["id"]] = o
+        os.remove(rin)
+        os.remove(rout)
+    return exp
